@@ -96,6 +96,33 @@ type PtrVal struct {
 	Idx   *Term
 	// the element belongs to a local byte array (slices of it never carry a Cat description)
 	LocalArr bool
+	// a pointer that is one of several (join of pointers to different objects): Obj and Slice are nil; exactly one
+	// condition holds when the pointer is not nil. Reads select, writes update each target conditionally.
+	Alts []PtrAlt
+}
+
+type PtrAlt struct {
+	C *Term
+	P PtrVal
+}
+
+func (p PtrVal) alts(o *Ops) []PtrAlt {
+	if len(p.Alts) > 0 {
+		return p.Alts
+	}
+	return []PtrAlt{{C: o.True(), P: p}}
+}
+
+// objs: every object the pointer may point into.
+func (p PtrVal) objs() []*Object {
+	if p.Obj != nil {
+		return []*Object{p.Obj}
+	}
+	var r []*Object
+	for _, a := range p.Alts {
+		r = append(r, a.P.objs()...)
+	}
+	return r
 }
 
 type TupleVal []Val
@@ -232,12 +259,12 @@ func (x *Exec) iteVal(c *Term, a, b Val) Val {
 		return r
 	case PtrVal:
 		bv := b.(PtrVal)
-		if av.Obj == nil && av.Slice == nil { // a is the nil pointer
+		if av.Obj == nil && av.Slice == nil && len(av.Alts) == 0 { // a is the nil pointer
 			r := bv
 			r.Nil = o.Ite(c, av.Nil, bv.Nil)
 			return r
 		}
-		if bv.Obj == nil && bv.Slice == nil {
+		if bv.Obj == nil && bv.Slice == nil && len(bv.Alts) == 0 {
 			r := av
 			r.Nil = o.Ite(c, av.Nil, bv.Nil)
 			return r
@@ -246,6 +273,18 @@ func (x *Exec) iteVal(c *Term, a, b Val) Val {
 			r := av
 			r.Nil = o.Ite(c, av.Nil, bv.Nil)
 			return r
+		}
+		if av.Slice == nil && bv.Slice == nil {
+			r := PtrVal{Nil: o.Ite(c, av.Nil, bv.Nil)}
+			for _, a := range av.alts(o) {
+				r.Alts = append(r.Alts, PtrAlt{C: o.And(c, a.C), P: a.P})
+			}
+			for _, b := range bv.alts(o) {
+				r.Alts = append(r.Alts, PtrAlt{C: o.And(o.Not(c), b.C), P: b.P})
+			}
+			if len(r.Alts) <= 8 {
+				return r
+			}
 		}
 		panic(mergeErr{"merge of pointers to different objects"})
 	case ErrVal:
@@ -283,8 +322,10 @@ func (x *Exec) iteVal(c *Term, a, b Val) Val {
 				r.Pay[k] = w
 			}
 		}
-		if av.Sym != "" || bv.Sym != "" {
-			r.Sym = av.Sym + bv.Sym
+		if av.Sym == bv.Sym {
+			r.Sym = av.Sym
+		} else if av.Sym != "" || bv.Sym != "" {
+			r.Sym = av.Sym + "|" + bv.Sym
 		}
 		if av.RT != nil && bv.RT != nil && types.Identical(av.RT, bv.RT) {
 			r.RT = av.RT
@@ -421,6 +462,14 @@ func sameVal(a, b Val) bool {
 		return true
 	case PtrVal:
 		bv, ok := b.(PtrVal)
+		if len(av.Alts) != len(bv.Alts) {
+			return false
+		}
+		for i := range av.Alts {
+			if av.Alts[i].C != bv.Alts[i].C || !sameVal(av.Alts[i].P, bv.Alts[i].P) {
+				return false
+			}
+		}
 		return ok && av.Nil == bv.Nil && av.Obj == bv.Obj && samePath(av.Path, bv.Path) && av.Idx == bv.Idx
 	case ErrVal:
 		bv, ok := b.(ErrVal)
